@@ -215,8 +215,9 @@ Analyse(sp, F) ==
              IN  IF Cardinality(dots) > 1 \/ pct > 1 \/ pml > 1 \/ (pct > 0 /\ pml > 0) \/ Count(mant, IsPicDigit) = 0 \/ badComma \/ intOrder \/ fracOrder
                     \/ (~hasE /\ passiveInside)
                  THEN [ok |-> "no"]
-                 \* exponent separators: decided only when the single one in the sub-picture sits between digit signs
-                 ELSE IF eAny # {} /\ ~(Cardinality(eAny) = 1 /\ hasE /\ expPart # <<>> /\ IsPicDigit(sp[MinS(eIdx) - 1]) /\ \A i \in 1..Len(expPart) : IsDigC(expPart[i]))
+                 \* exponent separators: one before the first or after the last digit sign is a passive character (part of the prefix
+                 \* or suffix); among the digit signs, decided only when there is a single one and it sits between digit signs
+                 ELSE IF eIdx # {} /\ ~(Cardinality(eIdx) = 1 /\ hasE /\ expPart # <<>> /\ IsPicDigit(sp[MinS(eIdx) - 1]) /\ \A i \in 1..Len(expPart) : IsDigC(expPart[i]))
                  THEN [ok |-> "unsure"]
                  ELSE IF hasE /\ (pct + pml > 0 \/ passiveInside) THEN [ok |-> "no"]
                  ELSE [ok |-> "yes", prefix |-> prefix, suffix |-> suffix, minInt |-> minInt1, minFrac |-> minFrac2, maxFrac |-> maxFrac2,
